@@ -39,16 +39,32 @@ BLOCKTYPE = {k: BlockType(v) for k, v in TYPE_CODE.items()}
 SEGMENTED = ("data3d", "emg", "ft", "fpdata")
 
 
+def _as(a, dt, wide):
+    """The array as a user might hold it: native float32 (None/False), float64 (True/'f64'),
+    big-endian of the on-disk width ('be') or of double width ('be64'), or a MaskedArray
+    ('ma', only for sample rows)."""
+    if dt in (None, False, "ma"):
+        return a.copy()
+    if dt in (True, "f64"):
+        return a.astype(np.float64)
+    if dt == "be":
+        return a.astype(">f8" if wide else ">f4")
+    if dt == "be64":
+        return a.astype(">f8")
+    return a.copy()
+
+
 def _f32(b, shape=None, f64=False):
     a = np.frombuffer(b, dtype="<f4")
     if shape is not None:
         a = a.reshape(shape)
-    return a.astype(np.float64) if f64 else a.copy()
+    return _as(a, f64, False)
 
 
-def _f64(b, shape=None):
-    a = np.frombuffer(b, dtype="<f8").copy()
-    return a.reshape(shape) if shape is not None else a
+def _f64(b, shape=None, dt=None):
+    a = np.frombuffer(b, dtype="<f8")
+    a = a.reshape(shape) if shape is not None else a
+    return _as(a, "be" if dt in ("be", "be64") else None, True)
 
 
 def _scalar32(b):
@@ -58,12 +74,18 @@ def _scalar32(b):
 def _rows(mask, data, width, f64=False):
     """(n, width) array with NaN rows at gaps."""
     n = len(mask)
-    out = np.full((n, width), np.nan, dtype=np.float64 if f64 else np.float32)
+    out = np.full((n, width), np.nan, dtype=np.float32)
+    idx = [i for i, c in enumerate(mask) if c == "1"]
     if data:
         vals = np.frombuffer(data, dtype="<f4").reshape(-1, width)
-        idx = [i for i, c in enumerate(mask) if c == "1"]
         out[idx] = vals
-    return out
+    if f64 == "ma":
+        # missing frames given as a numpy.ma mask with finite numbers underneath
+        present = np.zeros(n, dtype=bool)
+        present[idx] = True
+        filled = np.where(np.isnan(out), np.float32(1e20), out)
+        return np.ma.masked_array(filled, mask=np.repeat(~present[:, None], width, axis=1))
+    return _as(out, f64, False)
 
 
 def _date(ts):
@@ -83,7 +105,7 @@ def build(C, f64=False):
     elif t == "emg":
         b = EMG(C["freq"], C["nSamples"], _scalar32(C["start"]), EMGBlockFormat(C["fmt"]))
         for tr in C["tracks"]:
-            b.addSignal(EMGTrack(tr["label"], _rows(tr["mask"], tr["data"], 1, f64)[:, 0].copy()),
+            b.addSignal(EMGTrack(tr["label"], _rows(tr["mask"], tr["data"], 1, f64)[:, 0]),
                         channel=tr["ch"])
     elif t == "ft":
         b = ForceTorque3D(C["freq"], C["nFrames"], _f32(C["vol"]), _f32(C["rot"], (3, 3)),
@@ -118,12 +140,12 @@ def build(C, f64=False):
         for c in C["cams"]:
             vp = CameraViewPort(np.array(c["vp"][0:2], dtype="<i4"), np.array(c["vp"][2:4], dtype="<i4"))
             if C["fmt"] == 1:
-                cams.append(SeelabCameraData(_f64(c["R"], (3, 3)), _f64(c["T"]), _f64(c["focus"]),
-                                             _f64(c["center"]), _f64(c["radial"]), _f64(c["decent"]),
-                                             _f64(c["prism"]), vp))
+                cams.append(SeelabCameraData(_f64(c["R"], (3, 3), f64), _f64(c["T"], None, f64), _f64(c["focus"], None, f64),
+                                             _f64(c["center"], None, f64), _f64(c["radial"], None, f64), _f64(c["decent"], None, f64),
+                                             _f64(c["prism"], None, f64), vp))
             else:
-                cams.append(BTSCameraData(_f64(c["R"], (3, 3)), _f64(c["T"]), _f64(c["focus"]),
-                                          _f64(c["center"]), _f64(c["xd"]), _f64(c["yd"]), vp))
+                cams.append(BTSCameraData(_f64(c["R"], (3, 3), f64), _f64(c["T"], None, f64), _f64(c["focus"], None, f64),
+                                          _f64(c["center"], None, f64), _f64(c["xd"], None, f64), _f64(c["yd"], None, f64), vp))
         b = CalibrationDataBlock(DistorsionModel(C["model"]), _f32(C["vol"]), _f32(C["rot"], (3, 3)),
                                  _f32(C["trans"]), np.array(C["map"], dtype="<i2"), cams,
                                  CalibrationDataBlockFormat(C["fmt"]))
@@ -137,7 +159,8 @@ def build(C, f64=False):
         b = TemporalEventsData(TemporalEventsDataFormat(C["fmt"]), _scalar32(C["start"]))
         for e in C["events"]:
             vals = np.frombuffer(e["values"], dtype="<f4")
-            b.events.append(Event(e["label"], vals.copy() if not f64 else [float(v) for v in vals],
+            b.events.append(Event(e["label"], vals.copy() if f64 in (None, False, "ma") else
+                                  ([float(v) for v in vals] if f64 in (True, "f64") else vals.astype(">f4")),
                                   EventsDataType(e["kind"])))
     else:
         raise ValueError(t)
